@@ -35,9 +35,24 @@ fn run(case: &Value) -> Value {
         c["timeout_at"] = json!(j);
         let out = bvh::scan::scan_with(&scanner, &c);
         let next = bvh::scan::scan_with(&scanner, &base);
-        runs.push(json!({"kind": "timeout", "at": j, "out": out, "next_ok": strip(&next) == strip(&full)}));
+        // the same point when only this one check fires (the clock is looked at on some checks only): a
+        // timeout that is propagated at once gives the same outcome
+        c["timeout_once"] = json!(true);
+        let once = bvh::scan::scan_with(&scanner, &c);
+        let once_same = once == out;
+        let mut run = json!({"kind": "timeout", "at": j, "out": out, "next_ok": strip(&next) == strip(&full),
+                             "once_same": once_same});
+        if !once_same {
+            run["once_out"] = once;
+        }
+        runs.push(run);
     }
-    json!({"full": full, "runs": runs})
+    let kinds: Vec<String> = scanner
+        .verif_describe_strings()
+        .iter()
+        .map(|d| d.kind.split_whitespace().next().unwrap_or("").to_string())
+        .collect();
+    json!({"full": full, "runs": runs, "kinds": kinds})
 }
 
 fn main() {
